@@ -207,6 +207,7 @@ def run_ddsmt(workdir,
               infile_name=None,
               outfile_name=None,
               signal_after=None,
+              signal_after_tests=None,
               signal_no=signal.SIGINT,
               pre_outfile=None,
               input_bytes=None,
@@ -287,7 +288,21 @@ def run_ddsmt(workdir,
     timed_out = False
     sent_signal = False
     try:
-        if signal_after is not None:
+        if signal_after_tests is not None:
+            deadline = time.time() + timeout
+            while proc.poll() is None and time.time() < deadline:
+                try:
+                    with open(cmdlog, 'rb') as f:
+                        nlines = f.read().count(b'\n')
+                except FileNotFoundError:
+                    nlines = 0
+                if nlines >= signal_after_tests + 1:
+                    os.kill(proc.pid, signal_no)
+                    sent_signal = True
+                    break
+                time.sleep(0.002)
+            out, err = proc.communicate(timeout=timeout)
+        elif signal_after is not None:
             try:
                 out, err = proc.communicate(timeout=signal_after)
             except subprocess.TimeoutExpired:
@@ -336,13 +351,26 @@ def run_ddsmt(workdir,
     r.cmdlog = read_jsonl(cmdlog)
     r.events = read_jsonl(events) if events else []
     r.tmp_listing = sorted(os.listdir(tmpdir))
-    r.uncaught_traceback = 'Traceback (most recent call last)' in r.stderr
+    r.uncaught_traceback = has_uncaught_traceback(r.stderr)
     if lingering:
         try:
             os.killpg(proc.pid, signal.SIGKILL)
         except OSError:
             pass
     return r
+
+
+def has_uncaught_traceback(stderr):
+    """An uncaught exception prints the header 'Traceback (most recent call
+    last)'; the same header after 'Exception ignored in ...' belongs to an
+    exception the interpreter swallowed during shutdown and is not one."""
+    lines = stderr.splitlines()
+    for i, l in enumerate(lines):
+        if l.startswith('Traceback (most recent call last)'):
+            if i > 0 and lines[i - 1].startswith('Exception ignored in'):
+                continue
+            return True
+    return False
 
 
 def read_jsonl(path):
